@@ -116,7 +116,7 @@ class Ev:
 class Blk:
     __slots__ = ('name', 'kind', 'out', 'inited', 'on_output', 'on_every', 'forward',
                  'init', 'alt', 'check', 'mod', 'nassign', 'state', 'restartable', 'expired',
-                 'has_init', 'outmap', 'stopval', 'stopped')
+                 'has_init', 'outmap', 'stopval', 'stopped', 'initreg')
 
     def __init__(self, name, kind, undef):
         self.name = name
@@ -138,6 +138,7 @@ class Blk:
         self.outmap = None          # gfsm: state -> output (undef = leave unchanged)
         self.stopval = NOVAL        # setter: value assigned by stop()
         self.stopped = False
+        self.initreg = False        # setter: initialised by init_regular (else from initdef)
 
 
 class OutEventModel:
@@ -216,6 +217,12 @@ class OutEventModel:
     def _init_block(self, blk):
         blk.inited = True
         if blk.kind == 'rec':
+            return
+        if blk.out is not self.undef and not blk.initreg:
+            # docs/blocks.rst "Initialization rules", item 4: the initdef value is used "only if
+            # still not initialized" (here: a block that got an output in a stop() of a
+            # simulation that was terminated before the initialisation)
+            self.stats['init_skipped_has_output'] += 1
             return
         if blk.kind == 'setter':
             self._assign(blk, blk.init)
